@@ -129,8 +129,13 @@ func (g *gBuilder) edgeByName(from, to int, opt bool) bool {
 
 func (g *gBuilder) args(ifaceSlot bool) string {
 	a := ""
-	if g.r.P(1, 4) {
+	switch g.r.Intn(4) { // (one draw, as before: `required=false` in one case of four)
+	case 0:
 		a += ",required=false"
+	case 3:
+		// (tenth round) the flag spelled out: a point is required unless the argument holds "false" — the bare flag and
+		// `=true` change nothing
+		a += []string{",required", ",required=true"}[len(g.sc.nodes)%2]
 	}
 	if ifaceSlot && g.r.P(1, 3) {
 		qs := []string{"a", "b", "c", "", "zz", "A", "C"}
